@@ -101,7 +101,13 @@ def _plan(draw, max_rows):
     elif name == "unique":
         k = draw(st.integers(0, min(3, len(cols))))
         op["cols"] = [cols[j]["name"] for j in draw(st.permutations(range(len(cols))))[:k]]
-    return {"frame": fp, "op": op}
+    plan = {"frame": fp, "op": op}
+    # how the receiver came to be, a module-level default, and whether the call is made twice
+    plan["receiver"] = draw(st.sampled_from(["built", "built", "shallow_copy", "deep_copy", "view_rows", "derived"]))
+    if draw(st.integers(0, 3)) == 0:
+        plan["peek_rows"] = draw(st.sampled_from([1, 2, 5, 10, 50]))
+    plan["twice"] = draw(st.integers(0, 2)) == 0
+    return plan
 
 
 def strategy(tier):
@@ -141,11 +147,12 @@ def _expected(plan):
     if name == "slice_off":
         rows = op["rows"] or []
         return [i for i in range(n) if i not in set(rows)]
+    peek = plan.get("peek_rows", 10)
     if name == "head":
-        k = min(10 if op["n"] is None else op["n"], n)
+        k = min(peek if op["n"] is None else op["n"], n)
         return list(range(k))
     if name == "tail":
-        k = min(10 if op["n"] is None else op["n"], n)
+        k = min(peek if op["n"] is None else op["n"], n)
         return list(range(n - k, n))
     if name == "drop_na":
         return [i for i in range(n) if not any(cc[c][i] is None for c in op["cols"])]
@@ -177,7 +184,7 @@ def nontrivial(plan):
                 return True
     exp = _expected(plan)
     if exp is None:
-        k = min(10 if op["n"] is None else op["n"], n)
+        k = min(plan.get("peek_rows", 10) if op["n"] is None else op["n"], n)
         return 0 < k < n
     return 0 < len(set(exp)) < n
 
@@ -186,6 +193,18 @@ def check(plan, ctx):
     fp, op = plan["frame"], plan["op"]
     n = fp["n"]
     data = build.frame(fp)
+    how = plan.get("receiver", "built")
+    if how == "shallow_copy":
+        data = data.copy()
+    elif how == "deep_copy":
+        data = data.deepcopy()
+    elif how == "view_rows":
+        data = data._view_rows(np.arange(n)) if hasattr(data, "_view_rows") else data     # what aggregate lambdas receive
+    elif how == "derived":
+        data = data.slice(rows=np.arange(n)).rename().unselect()      # the product of other operations
+    if "peek_rows" in plan:
+        di.DEFAULT_PEEK_ROWS = plan["peek_rows"]
+    ctx.cls("receiver_" + how)
     src = build.table(data)
     before = build.snap_frame(data)
     name = op["name"]
@@ -229,6 +248,23 @@ def check(plan, ctx):
 
     if not isinstance(out, di.DataFrame):
         raise Violation(f"{name} did not return a DataFrame", type=str(type(out)))
+    if plan.get("twice") and name != "sample":
+        again = {"filter": lambda: data.filter(arg), "filter_out": lambda: data.filter_out(arg)}.get(name) if name in ("filter", "filter_out") else None
+        if name in ("filter_kv", "filter_out_kv"):
+            rev = dict(reversed(list(kw.items())))        # keyword order is irrelevant for column=value conditions
+            again = lambda: getattr(data, meth)(**rev)
+        elif name in ("slice", "slice_off"):
+            again = lambda: getattr(data, name)(rows=rows, cols=op["cols"])
+        elif name in ("head", "tail"):
+            again = lambda: getattr(data, name)(op["n"])
+        elif name == "drop_na":
+            again = lambda: data.drop_na(*op["cols"])
+        elif name == "unique":
+            again = lambda: data.unique(*op["cols"])
+        out2 = ctx.call(name + " (second call)", again)
+        if build.snap_frame(out2) != build.snap_frame(out):
+            raise Violation(f"{name}: calling it a second time on the same receiver gives a different result")
+        ctx.cls("called_twice")
     exp = _expected(plan)
     if names is not None and "_rid_" not in names:
         # Column subset without the row id: compare cell-wise by position against the model rows.
@@ -246,7 +282,7 @@ def check(plan, ctx):
     else:
         rids = build.check_whole_rows(name, out, src, names=names)
         if name == "sample":
-            k = min(10 if op["n"] is None else op["n"], n)
+            k = min(plan.get("peek_rows", 10) if op["n"] is None else op["n"], n)
             if len(rids) != k or any(b <= a for a, b in zip(rids, rids[1:])):
                 raise Violation("sample: not a strictly increasing subsequence of min(n, nrow) rows", rids=rids, want_len=k)
         elif name == "slice" and op["rows"] is not None and list(op["rows"]) != sorted(set(op["rows"])):
